@@ -8,6 +8,7 @@ import time
 from collections import deque
 from collections.abc import Callable, Iterator
 from dataclasses import dataclass, field
+from struct import error as struct_error
 from struct import pack, unpack_from
 from typing import Deque, Optional, Union, cast
 
@@ -90,6 +91,10 @@ def decode_params(body: bytes) -> list[tuple[int, bytes]]:
     pos = 0
     while pos <= len(body) - 4:
         param_type, param_length = unpack_from("!HH", body, pos)
+        if param_length < 4 or pos + param_length > len(body):
+            raise ValueError(
+                f"SCTP parameter has an invalid length of {param_length} bytes"
+            )
         params.append((param_type, body[pos + 4 : pos + param_length]))
         pos += param_length + padl(param_length)
     return params
@@ -433,7 +438,10 @@ def parse_packet(data: bytes) -> tuple[int, int, int, list[Chunk]]:
         chunk_body = data[pos + SCTP_CHUNK_HEADER_LENGTH : pos + chunk_length]
         chunk_cls = CHUNK_TYPES.get(chunk_type)
         if chunk_cls:
-            chunks.append(chunk_cls(flags=chunk_flags, body=chunk_body))
+            try:
+                chunks.append(chunk_cls(flags=chunk_flags, body=chunk_body))
+            except struct_error:
+                raise ValueError("SCTP chunk body is truncated")
         pos += chunk_length + padl(chunk_length)
     return source_port, destination_port, verification_tag, chunks
 
